@@ -314,11 +314,13 @@ theorem contents_of_rejected (b : Bool) (i : Input) (h : rejected b i) : content
   cases i with
   | lcov bs => obtain ⟨k, hk⟩ := h; simp [contents, Cli.parseInput, hk]
   | jacoco bs => obtain ⟨k, hk⟩ := h; simp [contents, hk]
+  | gcno st g ds => obtain ⟨k, hk⟩ := h; simp [contents, hk]
 
 theorem crash_of_rejected (b : Bool) (i : Input) (h : rejected b i) : crash b i = none := by
   cases i with
   | lcov bs => obtain ⟨k, hk⟩ := h; simp [crash, hk]
   | jacoco bs => obtain ⟨k, hk⟩ := h; simp [crash, hk]
+  | gcno st g ds => obtain ⟨k, hk⟩ := h; simp [crash, hk]
 
 theorem resultMap_drop (o : Opts) (w : World) (pre post : List Input) (i : Input)
     (h : contents o.branch i = []) : resultMap o w (pre ++ i :: post) = resultMap o w (pre ++ post) := by
